@@ -101,6 +101,26 @@ def step (st : St) (toks : List String) : St × String :=
       | none => (st, "err")
       | some blk =>
         (st, s!"ok id={Hex.encode (blockID env blk)} hdr={Hex.encode (encodeHeader (headerOf env blk))} body={Hex.encode (encodeBody (bodyOf env blk))}")
+  | ["decs", mode, kS, nS, h, _lens] =>
+    match kS.toNat?, nS.toNat?, Hex.decodeWire h with
+    | some k, some n, some input =>
+      if !(mode == "seek" || mode == "bufio" || mode == "plain") then (st, "bad-op")
+      else if mode == "plain" ∧ n ≠ 1 then (st, "bad-op")
+      else if k > input.length ∨ n = 0 ∨ n > 16 then (st, "bad-op")
+      else
+        let env := envOf st
+        let total := input.length
+        let rec go (fuel : Nat) (cur : Bytes) (acc : List String) : List String :=
+          match fuel with
+          | 0 => acc
+          | fuel + 1 =>
+            match factoryDecodeRest env cur with
+            | none => acc ++ ["err"]
+            | some (blk, rest) =>
+              let pos := if mode == "plain" then "" else s!" pos={total - rest.length}"
+              go fuel rest (acc ++ [s!"ok id={Hex.encode (blockID env blk)}{pos}"])
+        (st, ";".intercalate (go n (input.drop k) []))
+    | _, _, _ => (st, "bad-op")
   | _ => (st, "bad-op")
 
 end Goloop.Driver.C08
